@@ -318,7 +318,7 @@ def run(ctx):
                     if ctx.out_of_time(0.85):
                         ctx.add('routes_skipped_for_time')
                         continue
-                    run_route(ctx, route, name, path, ctx.seed * 100 + s, nsteps)
+                    run_route(ctx, route, name, path, 0 if (s == 0 and job % 4 == 0) else ctx.seed * 100 + s, nsteps)
             job += 1
             if ctx.mine(job) and not ctx.out_of_time(0.95):
                 state_wrapper(ctx, name, path, ctx.seed * 100 + 7, nsteps)
